@@ -44,7 +44,7 @@ def main():
                 v = v[2:]       # round-2 demos were written for SEED/A and SEED/B
             log = "/tmp/cf_%s_%s.log" % (worker, s)
             open(log, "w").close()
-            subprocess.run("git checkout HEAD -- . && git clean -fdq -e target", shell=True, cwd=wt)
+            subprocess.run("git checkout HEAD -- . && git clean -fdq -e target -e Cargo.lock", shell=True, cwd=wt)
             dst = os.path.join(wt, "SEED", v)
             shutil.rmtree(os.path.join(wt, "SEED"), ignore_errors=True)
             shutil.copytree(sd, dst)
